@@ -105,7 +105,7 @@ class OpGen(object):
         rng = self.rng
         p_var = self.p_var
         if position_has_default and t[0] == "nonnull" and p_var > 0:
-            p_var = max(p_var, 0.5)
+            p_var = max(p_var, 0.7)
         if allow_var and self.cur_vars is not None and self.chance(p_var):
             return self.new_var(t, position_has_default=position_has_default)
         v = self.sg.input_value_for(t)
@@ -126,7 +126,7 @@ class OpGen(object):
         vt = t
         default = UNSET
         r = rng.random()
-        if t[0] == "nonnull" and position_has_default and rng.random() < 0.6:
+        if t[0] == "nonnull" and position_has_default and rng.random() < 0.8:
             name = "vn%d" % self.var_counter      # variable_values() makes these null more often
             # a nullable variable is allowed where the non-null position has a default; an explicit
             # null then fails the coercion of that argument at every execution of the field
@@ -264,7 +264,7 @@ class OpGen(object):
                 sels.append(OSpread(frag.name, self.directives_for("FRAGMENT_SPREAD")))
                 self.doc.features.add("fragment-spread")
         # one alias for different fields of object types that exclude each other (same leaf type)
-        if self.cur_frags is not None and st.kind in ("interface", "union") and self.chance(0.3):
+        if self.cur_frags is not None and st.kind in ("interface", "union") and self.chance(0.5):
             pairs = self.exclusive_leaf_pairs(scope)
             if pairs:
                 t1, f1, t2, f2 = rng.choice(pairs)
@@ -272,9 +272,9 @@ class OpGen(object):
                 key = "sh%d" % self.shared_counter
                 a = [OField(f1.name, t1, key)]
                 b = [OField(f2.name, t2, key)]
-                if self.chance(0.4):
+                if self.chance(0.6):
                     a = [OInline(None, a)]
-                if self.chance(0.2):
+                if self.chance(0.3):
                     b = [OInline(None, b)]
                 sels.append(OInline(t1, a))
                 sels.append(OInline(t2, b))
